@@ -57,10 +57,11 @@ type vregWorld struct {
 	secretOf map[string]string // hex(secret) -> model name
 	phantOf  map[string]string // ip string -> model name
 	logger   *log.Logger
+	handles  map[string]*DecoyRegistration // "p|t|s" -> the object last tracked under that key (what a lookup handed out)
 }
 
 func vregNewWorld() *vregWorld {
-	w := &vregWorld{r: NewRegisteredDecoys(), secretOf: map[string]string{}, phantOf: map[string]string{}}
+	w := &vregWorld{r: NewRegisteredDecoys(), secretOf: map[string]string{}, phantOf: map[string]string{}, handles: map[string]*DecoyRegistration{}}
 	w.r.transports[pb.TransportType_Min] = min.Transport{}
 	w.r.transports[pb.TransportType_Prefix] = prefix.Transport{}
 	w.r.transports[pb.TransportType_Obfs4] = obfs4.Transport{}
@@ -146,7 +147,7 @@ func (w *vregWorld) project(phantoms []string, now time.Time) vregProj {
 		for _, p := range phantoms {
 			ip := net.ParseIP(vregPhantoms[p])
 			found := []map[string]any{}
-			for _, d := range w.r.getRegistrations(ip) {
+			for _, d := range vMapAs[*DecoyRegistration](w.r.getRegistrations(ip)) {
 				found = append(found, map[string]any{"t": w.tname(d.Transport), "s": w.secretOf[fmt.Sprintf("%x", d.Keys.SharedSecret)]})
 			}
 			pr.Look[p] = map[string]any{"found": found, "count": w.r.countRegistrations(ip)}
@@ -193,17 +194,22 @@ func (w *vregWorld) apply(step map[string]any, phantoms []string) map[string]any
 	case "MarkActive":
 		got["p"], got["t"], got["s"] = p, t, s
 		d := w.stored(p, t, s)
+		got["stale"] = d == nil
 		if d == nil {
-			got["err"] = "not tracked"
-		} else {
-			w.r.markActive(d)
+			// a stale handle: the connection handler got this registration from a lookup, the sweeper removed it, and only
+			// then does the handler mark it (or a handle to something never tracked)
+			if d = w.handles[p+"|"+t+"|"+s]; d == nil {
+				d = w.mkReg(p, t, s)
+				d.Valid = true
+			}
 		}
+		w.r.markActive(d)
 		got["announced"] = len(w.updAnn) > u0
 	case "Lookup":
 		got["p"] = p
 		ip := net.ParseIP(vregPhantoms[p])
 		found := []map[string]any{}
-		for _, d := range w.r.getRegistrations(ip) {
+		for _, d := range vMapAs[*DecoyRegistration](w.r.getRegistrations(ip)) {
 			found = append(found, map[string]any{"t": w.tname(d.Transport), "s": w.secretOf[fmt.Sprintf("%x", d.Keys.SharedSecret)]})
 		}
 		got["found"] = found
@@ -217,6 +223,11 @@ func (w *vregWorld) apply(step map[string]any, phantoms []string) map[string]any
 		got["expired"], got["validExpired"] = e, v
 	default:
 		panic("unknown action " + a)
+	}
+	if a == "Track" || a == "Register" {
+		if d := w.stored(p, t, s); d != nil {
+			w.handles[p+"|"+t+"|"+s] = d
+		}
 	}
 	if a != "Register" && len(w.newAnn) > n0 {
 		got["strayNewAnnouncement"] = true
@@ -304,8 +315,10 @@ func TestVerifRegistryRandom(t *testing.T) {
 				// connect: only to something that a lookup returns (as a connection handler would)
 				cands := w.project(nil, time.Now()).Reg
 				sort.Slice(cands, func(i, j int) bool { return vCanon(vNorm(cands[i])) < vCanon(vNorm(cands[j])) })
-				if len(cands) == 0 {
-					continue
+				if len(cands) == 0 || rng.Intn(4) == 0 {
+					// a handler that still holds the handle of a registration the sweeper removed since (or of any other key)
+					step = map[string]any{"a": "MarkActive", "p": p, "t": tt, "s": s}
+					break
 				}
 				c := cands[rng.Intn(len(cands))]
 				step = map[string]any{"a": "MarkActive", "p": c["p"], "t": c["t"], "s": c["s"]}
@@ -416,7 +429,7 @@ func TestVerifRegistryScale(t *testing.T) {
 			if _, ok := w.r.decoysTimeouts[timeoutKey(d.PhantomIp.String(), id)]; ok {
 				records++
 			}
-			if m := w.r.getRegistrations(d.PhantomIp); m[id] != nil {
+			if m := vMapAs[*DecoyRegistration](w.r.getRegistrations(d.PhantomIp)); m[id] != nil {
 				matching++
 			}
 		}
